@@ -213,6 +213,9 @@ def run_bfs(case, r):
         return out
 
     # ---- explicit-state search to a fixpoint
+    # the reachable set of a correct implementation is exactly boxes x time selections
+    nbox = int(np.prod([len(subranges(k)) for k in shape]))
+    ntsel = 1 if nt == 0 else (len(subranges(nt)) + nt)
     k0 = digest(base)
     seen = {k0: ref0}
     block_digest = {ref0: k0}
@@ -245,7 +248,7 @@ def run_bfs(case, r):
                     continue
                 transitions += 1
                 r.check(digest(alt) == k, f"C02/{opn}/form={form}/{tag}", "the alternative ROI form selects the identical image (data and metadata)", op=op, num_voxels=img.num_voxels, got_shape=list(alt.img.shape), want_shape=list(out.img.shape), got_origin=np.asarray(alt.origin), want_origin=np.asarray(out.origin))
-            if k not in seen:
+            if k not in seen and len(seen) <= nbox * ntsel:
                 seen[k] = nref
                 frontier.append((out, nref, depth + 1))
                 maxdepth = max(maxdepth, depth + 1)
@@ -260,8 +263,6 @@ def run_bfs(case, r):
     r.outcome((case, len(seen)))
     r.notes.setdefault("samples", samples)
     # the reachable set is exactly boxes x time selections: anything else means merged or split states
-    nbox = int(np.prod([len(subranges(k)) for k in shape]))
-    ntsel = 1 if nt == 0 else (len(subranges(nt)) + nt)
     r.check(len(seen) == nbox * ntsel, f"C02/state-space/{tag}/{payload}/{tk}", "reachable states = (#boxes) x (#time selections): no two selections collapse and none splits", states=len(seen), want=nbox * ntsel)
 
 
